@@ -401,7 +401,7 @@ func c20Gen(tier string, rng *rand.Rand, emit func(string)) map[string]interface
 			subsets++
 			k := len(kinds)
 			var masks []int
-			if thorough {
+			if thorough || k <= 4 {
 				for mk := 0; mk < 1<<uint(k); mk++ {
 					masks = append(masks, mk)
 				}
